@@ -211,8 +211,9 @@ def check_case(case):
                 return dict(bucket=f'repr-attr:{k}', oracle='from_raw(repr(s)) keeps fg/bg/modifiers',
                             expected=repr(a[k]), observed=repr(b[k]), repr=repr(s))
         sfmt = s._fmt or ''
-        tame = all(c.isprintable() and c not in '{}:\\\'"' for c in text) and \
-            all(c.isprintable() and c not in '{}:\\\'"' for c in sfmt)
+        # the statement conditions the text round trip on the *text* only: the format spec may use any fill character
+        tame_text = all(c.isprintable() and c not in '{}:\\\'"' for c in text)
+        tame = tame_text and all(c.isprintable() and c not in '\\\'"' for c in sfmt)
         if tame:
             if r.value != text:
                 return dict(bucket='repr-text', oracle='from_raw(repr(s)).value == text (tame text)',
